@@ -1,5 +1,5 @@
 """C17 - macros are exactly the tagged quiet send on the global client (decided on the MIR of a witness crate)."""
-from ..terms import Terms, norm, fmt, walk
+from ..terms import Terms, norm, fmt, walk, field_of
 from ..witness import extract_witness
 from .common import *
 from .values import value_impls
@@ -171,6 +171,30 @@ def _is_unwrapped_global(mac, path):
     return res
 
 
+def _only_panics(b, starts):
+    """every path from `starts` ends in a panic (no return, no call into the library or to a marker function)"""
+    seen = set()
+    st = list(starts)
+    panics = False
+    while st:
+        x = st.pop()
+        if x in seen:
+            continue
+        seen.add(x)
+        t = b.blocks[x]['term']
+        if t['k'] == 'return':
+            return False
+        if t['k'] == 'call':
+            name = strip_generics(t.get('callee_full', ''))
+            if name.startswith(('witness_macros::', 'cadence::', 'cadence_macros::', '<cadence')):
+                return False
+            if name.startswith(('core::panicking::', 'std::rt::begin_panic', 'std::panicking::')) and t.get('target') is None:
+                panics = True
+                continue
+        st.extend(b.succs(x, False))
+    return panics
+
+
 def check_expansion(b, fn, tr, ty, n, rep, ctx=None):
     T = Terms(b)
     mac, trait, meth = MACROS[tr]
@@ -180,6 +204,7 @@ def check_expansion(b, fn, tr, ty, n, rep, ctx=None):
     bb = 0
     seen = set()
     branch = None
+    match_unwrap = None
     while bb not in seen:
         seen.add(bb)
         t = b.blocks[bb]['term']
@@ -192,6 +217,17 @@ def check_expansion(b, fn, tr, ty, n, rep, ctx=None):
         elif k in ('goto', 'drop', 'assert'):
             bb = t['target']
         elif k == 'switch':
+            # `match get_global_default() { Ok(c) => c, Err(..) => panic!(..) }` is unwrap() with another message: the Err
+            # edge must do nothing but panic
+            dt, edges = T.switch_facts(bb)
+            d = norm(dt)
+            ok_e = [s for s, labs in edges.items() if ('variant', 'Ok') in labs]
+            er_e = [s for s, labs in edges.items() if ('variant', 'Err') in labs]
+            if match_unwrap is None and d[0] == 'discr' and term_callee_is(d[1], 'cadence_macros::state::get_global_default') and \
+                    len(ok_e) == 1 and er_e and set(edges) == set(ok_e) | set(er_e) and _only_panics(b, er_e):
+                match_unwrap = (bb, d[1])
+                bb = ok_e[0]
+                continue
             branch = bb
             break
         else:
@@ -207,6 +243,8 @@ def check_expansion(b, fn, tr, ty, n, rep, ctx=None):
         if name.endswith('as core::ops::deref::Deref>::deref') or name.startswith('core::hint::') or name.startswith('core::mem::drop'):
             continue
         calls.append((bb, name, t))
+    if match_unwrap is not None and calls and calls[0][1] == 'cadence_macros::state::get_global_default':
+        calls = [calls[0], (('match', match_unwrap[0]), 'core::result::Result::unwrap', calls[0][2])] + calls[1:]
     if calls and ctx is not None and calls[0][1].startswith('cadence_macros::') and calls[0][1] != 'cadence_macros::state::get_global_default' \
             and _is_unwrapped_global(ctx.mac, calls[0][1]):
         # the lookup-or-panic lives in a hidden helper of the macro crate: same two steps, one call site
@@ -245,7 +283,8 @@ def check_expansion(b, fn, tr, ty, n, rep, ctx=None):
         why = 'call sequence is %s' % [g.replace('witness_macros::', '').replace('cadence::builder::', '').replace('cadence_macros::state::', '') for g in got]
     if ok:
         # data flow: the builder threads through, markers feed the right argument positions
-        terms = {bb: norm(T.call_term(bb)) for bb, _, _ in calls}
+        terms = {bb: (norm(T.call_term(bb)) if not isinstance(bb, tuple) else norm(field_of(('payload', match_unwrap[1], 'Ok'), '0', 0)))
+                 for bb, _, _ in calls}
         bbs = [c[0] for c in calls]
         tagged = terms[bbs[4]]
         okf = peel(tagged[2][1]) == terms[bbs[2]] and tagged[2][2] == terms[bbs[3]]
